@@ -145,6 +145,9 @@ func migrateExpression(env envs.Environment, expression string, options *Migrate
 
 var functionCallRegex = regexp.MustCompile(`^(\w+)\(`)
 
+// what DAY(..), MONTH(..) and YEAR(..) are migrated to, i.e. a part of a date rather than a date
+var datePartRegex = regexp.MustCompile(`^format_date\(.*, "(D|M|YYYY)"\)$`)
+
 func inferType(operand string) string {
 	// if we have an integer literal, we're a number
 	_, numErr := strconv.Atoi(operand)
@@ -155,6 +158,9 @@ func inferType(operand string) string {
 	// if this looks like a function call, lookup its return type
 	matches := functionCallRegex.FindStringSubmatch(operand)
 	if matches != nil {
+		if datePartRegex.MatchString(operand) {
+			return ""
+		}
 		return functionReturnTypes[matches[1]]
 	}
 	return ""
